@@ -24,7 +24,8 @@ class PostHarness:
     def setup_process(self):
         if not self._ready:
             aoenv.install()
-            sched.monitor(H.pick_codes(CORE) if self.codes == "core" else H.ao_codes(), self.mode)
+            sched.monitor(H.pick_codes(CORE) if self.codes == "core" else
+                          (H.pick_codes(H.TOKEN_PROTOCOL) if self.codes == "tokens" else H.ao_codes()), self.mode)
             self._ready = True
 
     def body(self, s, p):
@@ -210,8 +211,22 @@ def run(tier):
     lin.selftest()
     bound = 2
     st = explore.explore(C04("line"), params(tier), bound)
+    # the same two-poster harnesses at instruction granularity in the token-protocol code (LockingDeque, run_event): a
+    # preemption between two calls on one source line (e.g. between qsize() and len() of one comparison) is invisible at
+    # line granularity.  Quick: hybrid bound = two preemptions of which at most one inside a line; thorough: both anywhere.
+    ips = [{"h": "H1", "posters": [["fifo"], ["lifo"]], "bound": 2.015}]
+    hy = C04("instr", "tokens")
+    hy.intra_cost = 1.01
+    if tier != "quick":
+        ips += [{"h": "H1", "posters": [["fifo"], ["fifo"]], "bound": 2.015}, {"h": "H1", "posters": [["lifo"], ["lifo"]], "bound": 2.015},
+                {"h": "H2", "posters": [["fifo"]], "bound": 2.015}, {"h": "H5", "posters": [["fifo", "fifo"], ["lifo"]], "qsize": 2, "bound": 2.015}]
+    st.merge(explore.explore(hy, ips, 2.015))
+    if tier != "quick":
+        st.merge(explore.explore(C04("instr", "tokens"), [{"h": "H1", "posters": [["fifo"], ["lifo"]]}], 2))
     fill(res, st, bound, "line", "; harnesses H1 external posters, H2 + posts from a handler, H3 + timed source, "
-         "H4 + fabric publication, H5 overflow")
+         "H4 + fabric publication, H5 overflow; plus %d harnesses at instruction granularity in LockingDeque/run_event (every "
+         "shared-access-capable bytecode is a scheduling point; two preemptions, at most one of them inside a source line; "
+         "thorough: one harness with both anywhere)" % len(ips))
     need = 2
     if len(st.outcomes) < need:
         from mc.common import ToolingError
